@@ -181,7 +181,9 @@ func (commander *Commander) CreateTransaction(ctx context.Context, parameters Pa
 		return nil, err
 	}
 
-	commander.monitor.CommittedTransactions(ctx, *log.Data.(ledger.NewTransactionLogPayload).Transaction, log.Data.(ledger.NewTransactionLogPayload).AccountMetadata)
+	if !parameters.DryRun {
+		commander.monitor.CommittedTransactions(ctx, *log.Data.(ledger.NewTransactionLogPayload).Transaction, log.Data.(ledger.NewTransactionLogPayload).AccountMetadata)
+	}
 
 	return log.Data.(ledger.NewTransactionLogPayload).Transaction, nil
 }
@@ -222,7 +224,9 @@ func (commander *Commander) SaveMeta(ctx context.Context, parameters Parameters,
 		return err
 	}
 
-	commander.monitor.SavedMetadata(ctx, targetType, fmt.Sprint(targetID), m)
+	if !parameters.DryRun {
+		commander.monitor.SavedMetadata(ctx, targetType, fmt.Sprint(targetID), m)
+	}
 	return nil
 }
 
@@ -262,7 +266,9 @@ func (commander *Commander) RevertTransaction(ctx context.Context, parameters Pa
 		return nil, err
 	}
 
-	commander.monitor.RevertedTransaction(ctx, log.Data.(ledger.RevertedTransactionLogPayload).RevertTransaction, transactionToRevert)
+	if !parameters.DryRun {
+		commander.monitor.RevertedTransaction(ctx, log.Data.(ledger.RevertedTransactionLogPayload).RevertTransaction, transactionToRevert)
+	}
 
 	return log.Data.(ledger.RevertedTransactionLogPayload).RevertTransaction, nil
 }
@@ -335,7 +341,9 @@ func (commander *Commander) DeleteMetadata(ctx context.Context, parameters Param
 		return err
 	}
 
-	commander.monitor.DeletedMetadata(ctx, targetType, targetID, key)
+	if !parameters.DryRun {
+		commander.monitor.DeletedMetadata(ctx, targetType, targetID, key)
+	}
 
 	return nil
 }
